@@ -1,0 +1,16 @@
+//go:build verif
+
+/*
+Add-only hook for the /verif machinery (property C15). Compiled only with `-tags verif`;
+without the tag this file does not exist for the compiler.
+*/
+
+package sql
+
+import "time"
+
+// VerifNewTimestamp builds a TIMESTAMP typed value holding exactly t (the package has no
+// exported constructor for it); used to call Timestamp.Compare on chosen values.
+func VerifNewTimestamp(t time.Time) *Timestamp {
+	return &Timestamp{val: t}
+}
